@@ -8,7 +8,8 @@
    later) that exits by itself at e (None: blocks) and i after the interrupt (None: ignores it). *)
 From Coq Require Import List Bool ZArith.
 From Coq.Strings Require Import Byte.
-From GI Require Import Lib.Bytes Gen.TsBatchConsts TsDeadline.TsDeadline TsDeadline.TsDeadlineFacts.
+From GI Require Import Lib.Bytes Gen.TsBatchConsts TsDeadline.TsDeadline TsDeadline.TsDeadlineFacts
+  TsDeadline.TsTimed TsDeadline.TsTimedFacts TsDeadline.TsTimedBounds.
 Import ListNotations.
 Local Open Scope Z_scope.
 
@@ -53,19 +54,24 @@ Theorem C17_wait_or_stop_terminates : forall p s l s', reachable p s -> ustep p 
 Proof. exact thread_steps_bounded. Qed.
 Print Assumptions C17_wait_or_stop_terminates.
 
-(* The context's error is returned exactly when Signal(interrupt) returned nil (the interrupt path
-   was taken and Wait had not yet reaped the process); otherwise Wait's own result. *)
+(* Attribution: Wait's own result exactly when no signal was sent (the first select sent nil, or Signal
+   answered os.ErrProcessDone because Wait had already reaped the process); the context's error when
+   the interrupt was delivered — and also when Signal failed with another error but the value was taken
+   from the second select; after such a failure the final send carries Signal's own error. *)
 Theorem C17_attribution : forall p s, reachable p s ->
-  (uw s = WDoneCtx -> uintr s = true /\ uctx s = true) /\ (uw s = WDoneWait -> uintr s = false).
+  (uw s = WDoneCtx -> (uintr s = true \/ usigerr s = true) /\ uctx s = true) /\
+  (uw s = WDoneWait -> uintr s = false /\ usigerr s = false) /\
+  (uw s = WDoneSig -> usigerr s = true /\ uctx s = true) /\
+  (sig_fails p = false -> usigerr s = false).
 Proof. exact attribution. Qed.
 Print Assumptions C17_attribution.
 
 Theorem C17_kill_only_after_interrupt_and_timer : forall p s, reachable p s -> ukil s = true ->
-  kd_pos p = true /\ uintr s = true /\ utm s = TFired.
+  kd_pos p = true /\ (uintr s = true \/ usigerr s = true) /\ utm s = TFired.
 Proof. exact kill_only_after_interrupt. Qed.
 Print Assumptions C17_kill_only_after_interrupt_and_timer.
 
-Theorem C17_no_signal_before_context_done : forall p s, reachable p s -> uintr s = true ->
+Theorem C17_no_signal_before_context_done : forall p s, reachable p s -> (uintr s = true \/ usigerr s = true) ->
   uctx s = true /\ has_ctx p = true.
 Proof. exact no_signal_before_ctx. Qed.
 Print Assumptions C17_no_signal_before_context_done.
@@ -148,3 +154,60 @@ Theorem C17_blocked_reports_timed_out : forall sigma now eps D i o wait_ok neg,
   fg_exec (fg_params now eps D None i) o wait_ok neg = Some (XTimedOut timed_out_message).
 Proof. exact runt_blocked_timed_out. Qed.
 Print Assumptions C17_blocked_reports_timed_out.
+
+(* ---- waitOrStop as a timed automaton: [treach par s] — s is reached by some sequence of discrete
+   steps (labels of the interleaving system, environment events not before their time) and delays
+   (allowed while no pending obligation is more than the slack overdue).  Every interleaving, every
+   timing. *)
+
+(* Its control part is a run of the interleaving system: all the theorems above hold of timed runs. *)
+Theorem C17_timed_automaton_refines : forall par s, treach par s -> reachable (pu par) (us s).
+Proof. exact treach_untimed. Qed.
+Print Assumptions C17_timed_automaton_refines.
+
+(* The interrupt is sent between the expiry of the context and three slacks later. *)
+Theorem C17_ta_interrupt_window : forall par s ts, wf_tpar par -> treach par s -> at_sig s = Some ts ->
+  pC par <= ts <= pC par + 3 * psig par.
+Proof. exact ta_interrupt_window. Qed.
+Print Assumptions C17_ta_interrupt_window.
+
+(* The kill is sent killDelay after the context expired, at most seven slacks late. *)
+Theorem C17_ta_kill_window : forall par s tk, wf_tpar par -> treach par s -> at_kill s = Some tk ->
+  pC par + pK par <= tk <= pC par + pK par + 7 * psig par.
+Proof. exact ta_kill_window. Qed.
+Print Assumptions C17_ta_kill_window.
+
+(* With a deadline and a positive kill delay the clock cannot pass ten slacks after the kill time while
+   the waiter has not returned (whatever the process does, also when Signal fails) ... *)
+Theorem C17_ta_returns_by : forall par s, wf_tpar par -> has_ctx (pu par) = true -> kd_pos (pu par) = true ->
+  treach par s -> w_done (uw (us s)) = false -> now s <= pC par + pK par + 10 * psig par.
+Proof. exact ta_returns_by. Qed.
+Print Assumptions C17_ta_returns_by.
+
+(* ... so the return time is at most that. *)
+Theorem C17_ta_return_time : forall par s r, wf_tpar par -> has_ctx (pu par) = true -> kd_pos (pu par) = true ->
+  treach par s -> at_ret s = Some r -> r <= pC par + pK par + 10 * psig par.
+Proof. exact ta_return_time. Qed.
+Print Assumptions C17_ta_return_time.
+
+(* A command that exits by itself more than three slacks before the context expires: in every timed
+   run no signal is ever sent, the result is Wait's own, and waitOrStop returns within three slacks. *)
+Theorem C17_ta_early_unaffected : forall par s, wf_tpar par -> early par -> treach par s ->
+  uintr (us s) = false /\ usigerr (us s) = false /\ ukil (us s) = false /\ at_sig s = None /\ at_kill s = None /\
+  (w_done (uw (us s)) = false -> now s <= pE par + 3 * psig par) /\
+  (w_done (uw (us s)) = true ->
+   uw (us s) = WDoneWait /\ exists r, at_ret s = Some r /\ pE par <= r <= pE par + 3 * psig par).
+Proof. exact ta_early_unaffected. Qed.
+Print Assumptions C17_ta_early_unaffected.
+
+(* Under RunT: interrupt grace_reserve grace periods before the deadline, kill one grace period later,
+   return at most ten slacks after that. *)
+Theorem C17_ta_runt_windows : forall u now_ eps D e d sg s,
+  0 <= sg -> 0 <= ctx_deadline now_ eps D -> 0 <= e -> 0 <= d -> has_ctx u = true -> kd_pos u = true ->
+  treach (fg_tpar u now_ eps D e d sg) s ->
+  let g := grace (D - now_) in
+  (forall ts, at_sig s = Some ts -> D + eps - grace_reserve * g <= ts <= D + eps - grace_reserve * g + 3 * sg) /\
+  (forall tk, at_kill s = Some tk -> D + eps - (grace_reserve - 1) * g <= tk <= D + eps - (grace_reserve - 1) * g + 7 * sg) /\
+  (forall r, at_ret s = Some r -> r <= D + eps - (grace_reserve - 1) * g + 10 * sg).
+Proof. exact ta_runt_windows. Qed.
+Print Assumptions C17_ta_runt_windows.
